@@ -431,4 +431,86 @@ theorem parseDelimited_struct {α : Type} (stop : Token) (withCommas : Bool) (pe
         exact ⟨a, b, fun h => by omega⟩) fuel st xs st' h
     exact ⟨a, b, c⟩
 
+
+section DelimitedInv
+variable {α β : Type} (stop : Token) (peeks : List Token) (item : PState → PR α) (er : α → β) (p : SP β)
+variable (Inv : PState → Prop) (hInv : ∀ st st', Inv st → Suf st' st → Inv st')
+include hInv
+
+/-- `parseDelimited_nocommas_sound` for items that are only sound on states satisfying an
+invariant that is inherited by suffixes (well-formed package-path tokens) -/
+theorem parseDelimited_nocommas_sound_inv (B : Nat)
+    (hitem : ∀ st x st1, Inv st → item st = .ok (x, st1) → Suf st1 st ∧ st1.toks.length < st.toks.length ∧
+        (st.toks.length ≤ st1.toks.length + B → (er x, abs st1) ∈ p (abs st)))
+    (fuel : Nat) (st : PState) (xs : List α) (st' : PState) (hst : Inv st)
+    (h : parseDelimited stop false peeks item fuel st = .ok (xs, st')) :
+    Suf st' st ∧ peekTok st' = some stop ∧ xs.length + st'.toks.length ≤ st.toks.length ∧
+    (st.toks.length ≤ st'.toks.length + B → Many p (xs.map er) (abs st) (abs st')) := by
+  induction fuel generalizing st xs st' with
+  | zero => simp [parseDelimited] at h
+  | succ fuel ih =>
+    simp only [parseDelimited] at h
+    split at h
+    · rename_i hs
+      cases h
+      exact ⟨Suf.refl _, by simpa using hs, by simp, fun _ => .nil _⟩
+    · split at h
+      · cases h
+      · split at h
+        · cases h
+        · rename_i x st1 hx
+          obtain ⟨hs1, hl1, hm1⟩ := hitem _ _ _ hst hx
+          split at h
+          · rename_i next hn
+            split at h
+            · rename_i hstop
+              cases h
+              subst hstop
+              refine ⟨hs1, hn, by simp; omega, fun hB => .cons (hm1 hB) (.nil _)⟩
+            · simp only [Bool.false_eq_true, if_false] at h
+              split at h
+              · cases h
+              · rename_i xs' st'' hrec
+                cases h
+                obtain ⟨hs2, hp2, hl2, hm2⟩ := ih _ _ _ (hInv _ _ hst hs1) hrec
+                refine ⟨hs2.trans hs1, hp2, by simp; omega, fun hB => ?_⟩
+                have hB1 : st.toks.length ≤ st1.toks.length + B := by
+                  have := hs2.len; omega
+                have hB2 : st1.toks.length ≤ st'.toks.length + B := by omega
+                exact .cons (hm1 hB1) (hm2 hB2)
+          · cases h
+
+theorem parseDelimited_nocommas_complete_inv (hstop : isLit stop = true)
+    (hitem : ∀ st a r1, Inv st → (a, r1) ∈ p (abs st) →
+        ∃ x st1, item st = .ok (x, st1) ∧ er x = a ∧ abs st1 = r1 ∧ Suf st1 st ∧
+          st1.toks.length < st.toks.length ∧ peekIn st peeks = true ∧ peekTok st ≠ some stop)
+    {xs : List β} {ts r : List STok} (h : Many p xs ts r)
+    (st : PState) (hst : Inv st) (hts : ts = abs st) (hr : r.head? = some (litTok stop)) (fuel : Nat)
+    (hfuel : xs.length + 1 ≤ fuel ∨ st.toks.length + 1 ≤ fuel) :
+    ∃ ys st', parseDelimited stop false peeks item fuel st = .ok (ys, st') ∧ ys.map er = xs ∧
+      abs st' = r ∧ Suf st' st := by
+  induction h generalizing st fuel with
+  | nil =>
+    subst hts
+    obtain ⟨f, rfl⟩ : ∃ f, fuel = f + 1 := ⟨fuel - 1, by omega⟩
+    exact ⟨[], st, parseDelimited_nil _ _ _ _ _ _ ((head_abs_lit hstop st).mp hr), rfl, rfl, Suf.refl _⟩
+  | cons h1 hm ih =>
+    subst hts
+    obtain ⟨x, st1, hx, rfl, rfl, hs1, hl, hin, hns⟩ := hitem _ _ _ hst h1
+    have hnis : peekIs st stop = false := (peekIs_false_iff _ _).mpr hns
+    obtain ⟨f, rfl⟩ : ∃ f, fuel = f + 1 := ⟨fuel - 1, by omega⟩
+    cases hm with
+    | nil =>
+      have hp1 : peekTok st1 = some stop := (head_abs_lit hstop st1).mp hr
+      refine ⟨[x], st1, ?_, rfl, rfl, hs1⟩
+      simp [parseDelimited, hnis, hin, hx, hp1]
+    | cons h2 hm2 =>
+      obtain ⟨_, _, _, _, _, _, _, hin1, hns1⟩ := hitem _ _ _ (hInv _ _ hst hs1) h2
+      obtain ⟨k, hk, _⟩ := (peekIn_iff _ _).mp hin1
+      have hkne : ¬ k = stop := fun h => hns1 (h ▸ hk)
+      obtain ⟨ys, st', hrec, hys, hst', hs2⟩ := ih st1 (hInv _ _ hst hs1) rfl hr f (by simp at hfuel ⊢; omega)
+      refine ⟨x :: ys, st', ?_, by simp [hys], hst', hs2.trans hs1⟩
+      simp [parseDelimited, hnis, hin, hx, hk, hkne, hrec]
+end DelimitedInv
+
 end Wac.C12
